@@ -146,12 +146,104 @@ func refLat(from, to int) lat {
 	return latMustNot
 }
 
-// dynOK: is the (non-nil) dynamic value assignable to the declared type.
+// dynOK: is the dynamic value assignable to the declared type. A nil interface
+// value (no dynamic type) is assignable to every interface type and to nothing else.
 func dynOK(v any, to int) bool {
 	if v == nil {
-		return false
+		return isIface(to)
 	}
 	return asserts(reflect.TypeOf(v), rtypes[to])
+}
+
+// goAssignable: Go's (reflect's) assignability, which eino's field-mapping
+// checkers use. It differs from dynOK exactly for the named/unnamed twins.
+func goAssignable(v any, to int) bool {
+	if v == nil {
+		return isIface(to)
+	}
+	return reflect.TypeOf(v).AssignableTo(rtypes[to])
+}
+
+// cast is v.(O) that lets a nil interface value through when O is an interface type.
+func cast[O any](v any) (O, bool) {
+	if v == nil {
+		var z O
+		return z, reflect.TypeOf((*O)(nil)).Elem().Kind() == reflect.Interface
+	}
+	o, ok := v.(O)
+	return o, ok
+}
+
+// ---- struct fields and map keys (workflow field mappings) ---------------------------
+
+// fieldType: the declared type found at path `f` below a value of declared type t.
+// asTarget: t is the input type of a successor (an `any` input is expanded to a
+// map[string]any by the framework), otherwise the output type of a predecessor.
+func fieldType(t int, f string, asTarget bool) (int, bool) {
+	switch t {
+	case tMap, tVars:
+		return tAny, true
+	case tAny:
+		return tAny, asTarget
+	case tT1, tPT1:
+		if f == "V" {
+			return tInt, true
+		}
+	case tT2:
+		if f == "W" {
+			return tString, true
+		}
+	}
+	return -1, false
+}
+
+// takeField: the dynamic value at path f of v (ok=false: absent).
+func takeField(v any, f string) (any, bool) {
+	switch x := v.(type) {
+	case map[string]any:
+		e, ok := x[f]
+		return e, ok
+	case Vars:
+		e, ok := x[f]
+		return e, ok
+	case T1:
+		return x.V, f == "V"
+	case *T1:
+		if x == nil {
+			return nil, false
+		}
+		return x.V, f == "V"
+	case T2:
+		return x.W, f == "W"
+	}
+	return nil, false
+}
+
+// buildFromFields: the input of declared type t the framework assembles from mapped fields.
+func buildFromFields(t int, fields map[string]any) any {
+	cp := func() map[string]any {
+		m := map[string]any{}
+		for k, v := range fields {
+			m[k] = v
+		}
+		return m
+	}
+	switch t {
+	case tMap, tAny:
+		return cp()
+	case tVars:
+		return Vars(cp())
+	case tT1:
+		v, _ := fields["V"].(int)
+		return T1{V: v}
+	case tPT1:
+		v, _ := fields["V"].(int)
+		return &T1{V: v}
+	case tT2:
+		w, _ := fields["W"].(string)
+		return T2{W: w}
+	}
+	return nil
 }
 
 // ---- dynamic values ----------------------------------------------------------
@@ -160,7 +252,7 @@ var (
 	ptrT1 = &T1{V: 1}
 )
 
-func mapOf(e any) map[string]any { return map[string]any{"k": e, "a": e, "b": e} }
+func mapOf(e any) map[string]any { return map[string]any{"k": e, "a": e, "b": e, "c": e} }
 
 // values of the universe (index = value id). Maps carry every key the generator uses.
 var values = []any{
@@ -211,6 +303,8 @@ func canon(v any) string {
 		}
 		b.WriteByte('}')
 		return b.String()
+	case Vars:
+		return "Vars" + canon(map[string]any(x))
 	case *T1:
 		if x == nil {
 			return "*T1(nil)"
@@ -232,7 +326,8 @@ func dynName(v any) string {
 
 // runParams are the per-run choices (set before each run; runs are sequential).
 type runParams struct {
-	outVal map[string]any // node key -> dynamic value to emit (when not echoing)
+	outVal map[string]any // node key -> dynamic value to emit (when not echoing); a present nil entry = emit a nil interface value
+	hVal   map[string]any // "pre:<key>" / "post:<key>" -> value a converting state handler hands on (nil entry = nil interface value)
 	choice map[int]int    // branch group -> chosen end index
 }
 
@@ -292,19 +387,16 @@ func combineChunks(chunks []any) (any, bool) {
 
 func produce[O any](n *nodeRT, in any) (O, error) {
 	n.w.rec("node", n.key, in)
-	var v any
-	if n.echo {
-		if _, ok := in.(O); ok {
-			v = in
+	if n.echo && in != nil {
+		if o, ok := in.(O); ok {
+			return o, nil
 		}
 	}
-	if v == nil {
-		n.w.mu.Lock()
-		v = n.w.cur.outVal[n.key]
-		n.w.mu.Unlock()
-	}
-	o, ok := v.(O)
-	if !ok {
+	n.w.mu.Lock()
+	v, have := n.w.cur.outVal[n.key]
+	n.w.mu.Unlock()
+	o, ok := cast[O](v)
+	if !ok || !have {
 		n.w.bug(fmt.Sprintf("node %s: emitted value %s is not of the declared output type", n.key, dynName(v)))
 	}
 	return o, nil // node bodies never fail by themselves
@@ -360,20 +452,37 @@ func mkBranch[T any](b *branchRT, stream bool) *compose.GraphBranch {
 		ends[e] = true
 	}
 	if stream {
-		return compose.NewStreamGraphBranch(func(ctx context.Context, in *schema.StreamReader[T]) (string, error) {
-			defer in.Close()
-			c, err := in.Recv()
-			if err != nil {
-				return "", err // forwarded framework error (or unexpected EOF)
-			}
-			b.w.rec("cond", b.key, any(c))
-			return b.pick(), nil
-		}, ends)
+		return compose.NewStreamGraphBranch(streamCond[T](b), ends)
 	}
-	return compose.NewGraphBranch(func(ctx context.Context, in T) (string, error) {
+	return compose.NewGraphBranch(valueCond[T](b), ends)
+}
+
+func valueCond[T any](b *branchRT) func(ctx context.Context, in T) (string, error) {
+	return func(ctx context.Context, in T) (string, error) {
 		b.w.rec("cond", b.key, any(in))
 		return b.pick(), nil
-	}, ends)
+	}
+}
+
+func streamCond[T any](b *branchRT) func(ctx context.Context, in *schema.StreamReader[T]) (string, error) {
+	return func(ctx context.Context, in *schema.StreamReader[T]) (string, error) {
+		defer in.Close()
+		c, err := in.Recv()
+		if err != nil {
+			return "", err // forwarded framework error (or unexpected EOF)
+		}
+		b.w.rec("cond", b.key, any(c))
+		return b.pick(), nil
+	}
+}
+
+// mkChainBranch: the chain form of a branch; its ends are the keys under which the
+// arms are added to the ChainBranch afterwards (= the node keys of the spec).
+func mkChainBranch[T any](b *branchRT, stream bool) *compose.ChainBranch {
+	if stream {
+		return compose.NewStreamChainBranch(streamCond[T](b))
+	}
+	return compose.NewChainBranch(valueCond[T](b))
 }
 
 // two state types: stA is the one graphs are created with, stB only appears in
@@ -381,31 +490,89 @@ func mkBranch[T any](b *branchRT, stream bool) *compose.GraphBranch {
 type stA struct{ N int }
 type stB struct{ N int }
 
-func mkPre[T, S any](w *world, key string, stream bool) compose.GraphAddNodeOpt {
+// handed: what a state handler hands on. conv 0: what it received; otherwise the
+// value the run parameters name for it (always a value of its declared type T, a
+// nil interface value included when T is an interface type).
+func handed[T any](w *world, slot string, conv int, in T) T {
+	if conv == 0 {
+		return in
+	}
+	w.mu.Lock()
+	v, have := w.cur.hVal[slot]
+	w.mu.Unlock()
+	o, ok := cast[T](v)
+	if !ok || !have {
+		w.bug(fmt.Sprintf("handler %s: value %s is not of the handler's declared type", slot, dynName(v)))
+	}
+	return o
+}
+
+// drain reads a handler's input stream to its end; a framework error is forwarded.
+func drain[T any](in *schema.StreamReader[T]) (last T, n int, err error) {
+	defer in.Close()
+	for {
+		c, e := in.Recv()
+		if e == io.EOF {
+			return last, n, nil
+		}
+		if e != nil {
+			return last, n, e
+		}
+		last, n = c, n+1
+	}
+}
+
+func mkPre[T, S any](w *world, key string, stream bool, conv int) compose.GraphAddNodeOpt {
 	if stream {
 		return compose.WithStreamStatePreHandler(func(ctx context.Context, in *schema.StreamReader[T], s S) (*schema.StreamReader[T], error) {
-			w.rec("pre", key, nil)
-			return in, nil
+			if conv == 0 {
+				w.rec("pre", key, nil)
+				return in, nil
+			}
+			last, _, err := drain(in)
+			if err != nil {
+				return nil, err
+			}
+			w.rec("pre", key, any(last))
+			return schema.StreamReaderFromArray([]T{handed(w, "pre:"+key, conv, last)}), nil
 		})
 	}
 	return compose.WithStatePreHandler(func(ctx context.Context, in T, s S) (T, error) {
 		w.rec("pre", key, any(in))
-		return in, nil
+		return handed(w, "pre:"+key, conv, in), nil
 	})
 }
 
-func mkPost[T, S any](w *world, key string, stream bool) compose.GraphAddNodeOpt {
+func mkPost[T, S any](w *world, key string, stream bool, conv int) compose.GraphAddNodeOpt {
 	if stream {
 		return compose.WithStreamStatePostHandler(func(ctx context.Context, out *schema.StreamReader[T], s S) (*schema.StreamReader[T], error) {
-			w.rec("post", key, nil)
-			return out, nil
+			if conv == 0 {
+				w.rec("post", key, nil)
+				return out, nil
+			}
+			last, _, err := drain(out)
+			if err != nil {
+				return nil, err
+			}
+			w.rec("post", key, any(last))
+			return schema.StreamReaderFromArray([]T{handed(w, "post:"+key, conv, last)}), nil
 		})
 	}
 	return compose.WithStatePostHandler(func(ctx context.Context, out T, s S) (T, error) {
 		w.rec("post", key, any(out))
-		return out, nil
+		return handed(w, "post:"+key, conv, out), nil
 	})
 }
+
+// ---- the three front ends -----------------------------------------------------------
+
+const (
+	feGraph = iota
+	feChain
+	feWorkflow
+)
+
+var frontNames = [...]string{"graph", "chain", "workflow"}
 
 // builder is the part of *compose.Graph[I,O] the check drives.
 type builder interface {
@@ -415,22 +582,59 @@ type builder interface {
 	AddBranch(startNode string, branch *compose.GraphBranch) error
 }
 
+// chainOps is the part of *compose.Chain[I,O] the check drives (errors surface at Compile).
+type chainOps interface {
+	AppendLambda(node *compose.Lambda, opts ...compose.GraphAddNodeOpt)
+	AppendPassthrough(opts ...compose.GraphAddNodeOpt)
+	AppendParallel(p *compose.Parallel)
+	AppendBranch(b *compose.ChainBranch)
+}
+
+type chainAd[I, O any] struct{ c *compose.Chain[I, O] }
+
+func (a chainAd[I, O]) AppendLambda(node *compose.Lambda, opts ...compose.GraphAddNodeOpt) {
+	a.c.AppendLambda(node, opts...)
+}
+func (a chainAd[I, O]) AppendPassthrough(opts ...compose.GraphAddNodeOpt) {
+	a.c.AppendPassthrough(opts...)
+}
+func (a chainAd[I, O]) AppendParallel(p *compose.Parallel)  { a.c.AppendParallel(p) }
+func (a chainAd[I, O]) AppendBranch(b *compose.ChainBranch) { a.c.AppendBranch(b) }
+
+// wfOps is the part of *compose.Workflow[I,O] the check drives (errors surface at Compile).
+type wfOps interface {
+	AddLambdaNode(key string, node *compose.Lambda, opts ...compose.GraphAddNodeOpt) *compose.WorkflowNode
+	AddPassthroughNode(key string, opts ...compose.GraphAddNodeOpt) *compose.WorkflowNode
+	End() *compose.WorkflowNode
+	AddBranch(from string, branch *compose.GraphBranch)
+}
+
+type wfAd[I, O any] struct{ w *compose.Workflow[I, O] }
+
+func (a wfAd[I, O]) AddLambdaNode(key string, node *compose.Lambda, opts ...compose.GraphAddNodeOpt) *compose.WorkflowNode {
+	return a.w.AddLambdaNode(key, node, opts...)
+}
+func (a wfAd[I, O]) AddPassthroughNode(key string, opts ...compose.GraphAddNodeOpt) *compose.WorkflowNode {
+	return a.w.AddPassthroughNode(key, opts...)
+}
+func (a wfAd[I, O]) End() *compose.WorkflowNode { return a.w.End() }
+func (a wfAd[I, O]) AddBranch(from string, branch *compose.GraphBranch) {
+	a.w.AddBranch(from, branch)
+}
+
 type runFns struct {
 	invoke func(ctx context.Context, in any) (any, error)
 	stream func(ctx context.Context, in any) ([]any, error)
 }
 
 type gHandle struct {
-	b       builder
+	b       builder  // front end: Graph
+	ch      chainOps // front end: Chain
+	wf      wfOps    // front end: Workflow
 	compile func(ctx context.Context, opts ...compose.GraphCompileOption) (*runFns, error)
 }
 
-func mkGraph[I, O any](withState bool) *gHandle {
-	var nopts []compose.NewGraphOption
-	if withState {
-		nopts = append(nopts, compose.WithGenLocalState(func(ctx context.Context) *stA { return &stA{} }))
-	}
-	g := compose.NewGraph[I, O](nopts...)
+func wrapRunnable[I, O any](r compose.Runnable[I, O]) *runFns {
 	conv := func(in any) I {
 		var i I
 		if in != nil {
@@ -438,53 +642,76 @@ func mkGraph[I, O any](withState bool) *gHandle {
 		}
 		return i
 	}
-	return &gHandle{b: g, compile: func(ctx context.Context, opts ...compose.GraphCompileOption) (*runFns, error) {
-		r, err := g.Compile(ctx, opts...)
+	return &runFns{
+		invoke: func(ctx context.Context, in any) (any, error) {
+			o, err := r.Invoke(ctx, conv(in))
+			if err != nil {
+				return nil, err
+			}
+			return any(o), nil
+		},
+		stream: func(ctx context.Context, in any) ([]any, error) {
+			sr, err := r.Stream(ctx, conv(in))
+			if err != nil {
+				return nil, err
+			}
+			defer sr.Close()
+			var out []any
+			for {
+				c, err := sr.Recv()
+				if err == io.EOF {
+					return out, nil
+				}
+				if err != nil {
+					return nil, err
+				}
+				out = append(out, any(c))
+			}
+		},
+	}
+}
+
+func mkFront[I, O any](front int, withState bool) *gHandle {
+	var nopts []compose.NewGraphOption
+	if withState {
+		nopts = append(nopts, compose.WithGenLocalState(func(ctx context.Context) *stA { return &stA{} }))
+	}
+	h := &gHandle{}
+	var compile func(ctx context.Context, opts ...compose.GraphCompileOption) (compose.Runnable[I, O], error)
+	switch front {
+	case feChain:
+		c := compose.NewChain[I, O](nopts...)
+		h.ch, compile = chainAd[I, O]{c}, c.Compile
+	case feWorkflow:
+		w := compose.NewWorkflow[I, O](nopts...)
+		h.wf, compile = wfAd[I, O]{w}, w.Compile
+	default:
+		g := compose.NewGraph[I, O](nopts...)
+		h.b, compile = g, g.Compile
+	}
+	h.compile = func(ctx context.Context, opts ...compose.GraphCompileOption) (*runFns, error) {
+		r, err := compile(ctx, opts...)
 		if err != nil {
 			return nil, err
 		}
-		return &runFns{
-			invoke: func(ctx context.Context, in any) (any, error) {
-				o, err := r.Invoke(ctx, conv(in))
-				if err != nil {
-					return nil, err
-				}
-				return any(o), nil
-			},
-			stream: func(ctx context.Context, in any) ([]any, error) {
-				sr, err := r.Stream(ctx, conv(in))
-				if err != nil {
-					return nil, err
-				}
-				defer sr.Close()
-				var out []any
-				for {
-					c, err := sr.Recv()
-					if err == io.EOF {
-						return out, nil
-					}
-					if err != nil {
-						return nil, err
-					}
-					out = append(out, any(c))
-				}
-			},
-		}, nil
-	}}
+		return wrapRunnable(r), nil
+	}
+	return h
 }
 
 // ---- static instantiation tables --------------------------------------------
 
 type typeMakers struct {
-	branch func(b *branchRT, stream bool) *compose.GraphBranch
-	pre    [2]func(w *world, key string, stream bool) compose.GraphAddNodeOpt // by state type
-	post   [2]func(w *world, key string, stream bool) compose.GraphAddNodeOpt
+	branch      func(b *branchRT, stream bool) *compose.GraphBranch
+	chainBranch func(b *branchRT, stream bool) *compose.ChainBranch
+	pre         [2]func(w *world, key string, stream bool, conv int) compose.GraphAddNodeOpt // by state type
+	post        [2]func(w *world, key string, stream bool, conv int) compose.GraphAddNodeOpt
 }
 
 type pairMakers struct {
 	inv   func(n *nodeRT) *compose.Lambda
 	trans func(n *nodeRT) *compose.Lambda
-	graph func(withState bool) *gHandle
+	front func(front int, withState bool) *gHandle
 }
 
 var (
@@ -493,14 +720,15 @@ var (
 )
 
 func regPair[I, O any](i, o int) {
-	perPair[i][o] = pairMakers{inv: mkInvLambda[I, O], trans: mkTransLambda[I, O], graph: mkGraph[I, O]}
+	perPair[i][o] = pairMakers{inv: mkInvLambda[I, O], trans: mkTransLambda[I, O], front: mkFront[I, O]}
 }
 
 func regType[T any](t int) {
 	perType[t] = typeMakers{
-		branch: mkBranch[T],
-		pre:    [2]func(*world, string, bool) compose.GraphAddNodeOpt{mkPre[T, *stA], mkPre[T, *stB]},
-		post:   [2]func(*world, string, bool) compose.GraphAddNodeOpt{mkPost[T, *stA], mkPost[T, *stB]},
+		branch:      mkBranch[T],
+		chainBranch: mkChainBranch[T],
+		pre:         [2]func(*world, string, bool, int) compose.GraphAddNodeOpt{mkPre[T, *stA], mkPre[T, *stB]},
+		post:        [2]func(*world, string, bool, int) compose.GraphAddNodeOpt{mkPost[T, *stA], mkPost[T, *stB]},
 	}
 	regPair[T, string](t, tString)
 	regPair[T, int](t, tInt)
